@@ -460,8 +460,8 @@ func runCode128() {
 		}
 	}
 	list = uniq(list)
-	sweep(fmt.Sprintf("Code 128: %d contents: every ASCII character, every ordered ASCII pair, digit runs of length 1..14 between 5x5 neighbours, lengths 77..81 over six fillers, contents of 40..80 characters alternating between code sets A and B (up to 160 symbol characters)", len(list)), len(list), 100, func(l *mc.Local, i int) {
-		run(l, "code128", list[i], -1, false, "own")
+	sweep(fmt.Sprintf("Code 128: %d contents: every ASCII character, every ordered ASCII pair, digit runs of length 1..14 between 5x5 neighbours, lengths 77..81 over six fillers, contents of 40..80 characters alternating between code sets A and B (up to 160 symbol characters); each read by the Code 128 reader without hints and with ASSUME_GS1 (no content holds an FNC1, so the hint changes nothing)", len(list)), len(list), 100, func(l *mc.Local, i int) {
+		run(l, "code128", list[i], -1, false, "own", "own+gs1")
 	})
 	// forced code sets
 	fl := chk.Pick(3, 4)
